@@ -191,6 +191,15 @@ def classify(body):
                 for k in list(rels):
                     if l in k:
                         del rels[k]
+                # a progress flag: `let mut progressed = false; .. progressed = true; .. if !progressed { break }`
+                rv_ = s["rhs"]
+                if rv_["k"] == "use" and rv_["a"]["k"] == "const" and rv_["a"].get("ty") == "bool" and "v" in rv_["a"]:
+                    rels[(-1, l)] = int(rv_["a"]["v"])
+                elif rv_["k"] in ("use", "unop") and rv_.get("a") and rv_["a"]["k"] in ("copy", "move") and not rv_["a"]["p"]["proj"] and (-1, rv_["a"]["p"]["l"]) in rels:
+                    if rv_["k"] == "use":
+                        rels[(-1, l)] = rels[(-1, rv_["a"]["p"]["l"])]
+                    elif rv_["op"] == "Not":
+                        rels[(-1, l)] = 1 - rels[(-1, rv_["a"]["p"]["l"])]
             t = blk["term"]
             succs = []
             if t["k"] == "call":
@@ -233,6 +242,8 @@ def classify(body):
                             if neg:
                                 val = not val
                             pruned = 1 if val else 0
+                if pruned is None and si["kind"] == "bool" and dl is not None and not t["discr"]["p"]["proj"] and (-1, dl) in rels:
+                    pruned = rels[(-1, dl)]
                 retry_edge = None
                 if pruned is None and si["kind"] == "bool" and dl is not None and not t["discr"]["p"]["proj"]:
                     # `if stolen.is_retry() { continue }`: the bool form of the Retry arm
